@@ -151,7 +151,13 @@ pub fn run_stdin() {
     let mut st = State::new();
     let mut dead = false;
     let mut last = String::new();
+    // VERIF_FLUSH: write every result as soon as it exists (bin/check re-runs a case this way after the process died, so
+    // that the output stops exactly at the op that aborted it)
+    let flush_each = std::env::var("VERIF_FLUSH").is_ok();
     for line in stdin.lock().lines() {
+        if flush_each {
+            out.flush().unwrap();
+        }
         let line = line.unwrap();
         let l = line.trim();
         if l.is_empty() || l.starts_with('#') {
@@ -179,17 +185,20 @@ pub fn run_stdin() {
             continue;
         }
         let r = catch_unwind(AssertUnwindSafe(|| dispatch(&mut st, &toks)));
+        // an index >= len seen by a cfg(roaring_verif) recorder in front of an unchecked access during this op
+        let ub = if ub::violations_since_last_drain() > 0 { " UB-SITE" } else { "" };
         match r {
             Ok(s) => {
                 if s.starts_with("panic") {
                     dead = true;
                 }
+                let s = format!("{}{}", s, ub);
                 writeln!(out, "{}", s).unwrap();
                 last = s
             }
             Err(_) => {
                 dead = true;
-                writeln!(out, "panic").unwrap()
+                writeln!(out, "panic{}", ub).unwrap()
             }
         }
     }
